@@ -405,7 +405,7 @@ GO_KINDS = {
     'IndexHierarchyGO-depth3': (lambda: sf.IndexHierarchyGO.from_labels([('A', 'a', 1)]), [('A', 'a', 1)], [('A', 'a', 2), ('A', 'b', 1), ('A', 'a', 1), ('B', 'a', 1), ('A', 'b', 2)]),
     'FrameGO-columns': (lambda: sf.FrameGO(np.zeros((1, 2)), columns=('a', 'b')), ['a', 'b'], ['c', 'a', 'd']),
 }
-READS = ['values', 'len', 'positions', 'iter', 'loc_to_iloc(last)', 'contains(all)', 'copy', 'reversed']
+READS = ['values', 'len', 'positions', 'iter', 'loc_to_iloc(last)', 'contains(all)', 'copy', 'reversed', 'loc_to_iloc(slice)']
 
 
 def go_events(kind):
@@ -506,6 +506,25 @@ def apply_event(ctx, kind, subject, model, ev, info, derived):
                     return True
                 got = ix.loc_to_iloc(model[-1])
                 good = isinstance(got, (int, np.integer)) and int(got) == len(model) - 1
+            elif arg == 'loc_to_iloc(slice)':
+                # a slice / partial key as the very first read after growth: label slices, a year slice on dates, an outer label of a hierarchy
+                if not model:
+                    return True
+                n_ = len(model)
+                if hier:
+                    key = sf.HLoc[model[-1][0]]
+                    exp_pos = [i for i, l in enumerate(model) if l[0] == model[-1][0]]
+                elif kind == 'IndexDateGO':
+                    from mc.refsel import RefDateAxis
+                    y = str(model[-1])[:4]
+                    key = slice(y, y)
+                    exp_pos = RefDateAxis(list(model)).loc(key)[1]
+                else:
+                    key = slice(model[0], model[-1])
+                    exp_pos = list(range(n_))
+                r_ = ix.loc_to_iloc(key)
+                got = list(range(n_))[r_] if isinstance(r_, slice) else ([int(r_)] if isinstance(r_, (int, np.integer)) else [int(x) for x in r_])
+                good = got == list(exp_pos)
             elif arg == 'contains(all)':
                 got = [l in ix for l in model]
                 good = all(got)
